@@ -61,3 +61,8 @@ SCALE_SEEDS = ["A: b\n", " x\n", "a, ", "a | ", "a (>= 1) [x] <y>, ", "${a} ", "
 def scale_cases(tier, prefix):
     reps = {"quick": "100,400,1600", "search": "100,400,1600", "thorough": "1000,4000,16000"}[tier]
     return [(f"{prefix}{i}", [hexs(s), reps]) for i, s in enumerate(SCALE_SEEDS)]
+
+# totality-stack: the same adversarial seeds, repeated, parsed on a small thread stack
+def stack_cases(tier, prefix):
+    r, kib = {"quick": (6000, 256), "search": (6000, 256), "thorough": (40000, 256)}[tier]
+    return [(f"{prefix}{i}", [hexs(s), str(r), str(kib)]) for i, s in enumerate(SCALE_SEEDS)]
